@@ -123,7 +123,7 @@ func TestC06(t *testing.T) {
 		for p := 0; p <= len(bt.Steps(0)); p++ {
 			for v := 0; v < 6; v++ {
 				n++
-				if !thorough() && ((v/2) != (ti+p+v)%3 || n%4 != 0) {
+				if !thorough() && ((v/2) != (ti+p+v)%3 || n%5 != 0) {
 					continue
 				}
 				run("c06-e2e", c07Scenario(bt, p, v%2 == 1, v/2))
@@ -131,7 +131,7 @@ func TestC06(t *testing.T) {
 		}
 	}
 	for i, sc := range c11Scenarios(thorough()) {
-		if !thorough() && i%3 != 0 {
+		if !thorough() && i%4 != 0 {
 			continue
 		}
 		run("c06-e2e", sc)
